@@ -273,7 +273,7 @@ func vfAtEnd(prop, part string) {
 				}
 				var injected bool
 				var sCode, opCode, after int
-				var diffs, leftover []string
+				var diffs, leftover, stuckSess []string
 				var exists bool
 				where := "afterwards"
 				res := vsched.Run(vsched.Config{MaxSteps: 4000000}, func() {
@@ -373,6 +373,17 @@ func vfAtEnd(prop, part string) {
 					if exists {
 						after, _ = t.cl[1].Req(`{"sub":{"id":"$ID","topic":"%s"}}`, t.grp)
 					}
+					// request bookkeeping never blocks a session: everybody who was involved is still served
+					for i, pc := range t.cl {
+						if pc.ended || pc.closed || (what == "deluser" && i == 2) {
+							continue
+						}
+						if pc.sess != nil && pc.sess.inflightReqs != nil && len(pc.sess.inflightReqs.sem) != 0 {
+							stuckSess = append(stuckSess, fmt.Sprintf("%s: request slot still taken", pc.name))
+						} else if fc, _ := pc.Req(`{"leave":{"id":"$ID","topic":"fnd"}}`); fc == 0 && !pc.ended {
+							stuckSess = append(stuckSess, fmt.Sprintf("%s: the next {leave} is never answered", pc.name))
+						}
+					}
 				})
 				name := fmt.Sprintf("%s during %s %s", op, what, where)
 				r.Eval(1)
@@ -403,6 +414,10 @@ func vfAtEnd(prop, part string) {
 						key = "C08:cached-subscription-of-deleted-account"
 					}
 					r.Violation(key, fmt.Sprintf("%s (answered %d): %s", name, opCode, d), det)
+				}
+				for _, l := range stuckSess {
+					r.Violation("C14:inflight-request-not-released:at-"+what+":"+op.Kind, fmt.Sprintf("%s: afterwards session %s", name, l), det)
+					r.Violation("C13:session-stuck-after:at-"+what+":"+op.Kind, fmt.Sprintf("%s: afterwards session %s", name, l), det)
 				}
 				for _, l := range leftover {
 					r.Violation("C14:deleted-user-left-behind:"+op.Kind, fmt.Sprintf("%s: the account was deleted (answer %d), yet the topic keeps %s", name, sCode, l), det)
